@@ -47,56 +47,44 @@ example : inverseIn (.int .i32) (.int .i32) [(.prime 2, 6), (.prime 5, 6)] (.i (
 
 /-! ### The compile-time gate of the implicit-rep inverse -/
 
-/-- The gate exactly as coded: `constexpr R threshold = 1'000'000;` is an *implicit conversion* of
-the literal to `R`, so for 8- and 16-bit reps the threshold is `1000000 mod 2^bits`. -/
-theorem C15_inverse_gate_asis (t : IntTy) (ht : t ∈ IntTy.all) (K : Mag) :
-    inverseImplicitCompiles (.int t) K = true ↔
-      (K.isInteger = true ∧ (K.num : Int) ≤ t.hi ∧ t.wrap 1000000 ≤ (K.num : Int)) := by
-  unfold inverseImplicitCompiles
-  by_cases hK : K.isInteger = true
-  · by_cases hfit : (K.num : Int) ≤ t.hi
-    · rw [unityIn_int t ht K hK hfit]
-      simp only [thresholdOf, inverseThresholdLiteral, valGe, ArithTy.isFloat, Bool.or_false,
-        decide_eq_true_eq, ge_iff_le]
-      constructor
-      · intro h; exact ⟨hK, hfit, by simpa using h⟩
-      · intro h; simpa using h.2.2
-    · have hg : (getValueI t K).isSome = false := by
-        unfold getValueI; rw [if_pos hK, gvInt_of_gt t _ hfit]; rfl
-      simp only [unityIn, hg]
-      simp [hfit]
-  · have hg : (getValueI t K).isSome = false := by
-      unfold getValueI; rw [if_neg hK]; rfl
-    simp only [unityIn, hg]
-    simp [hK]
+/-- A rep holds the threshold literal exactly when `10^6 ≤ max(T)` (the 32- and 64-bit reps). -/
+theorem threshold_inRange (t : IntTy) (ht : t ∈ IntTy.all) :
+    t.inRange ((inverseThresholdLiteral : Nat) : Int) ↔ (1000000 : Int) ≤ t.hi := by
+  have := lo_nonpos t ht
+  simp only [IntTy.inRange, inverseThresholdLiteral]
+  omega
 
-/-- **C15, gate — full statement**: an implicit-rep integral inversion compiles exactly when the
-constant is an integer that fits the rep and is at least 10^6. -/
-def C15_inverse_gate_full : Prop :=
-  ∀ t ∈ IntTy.all, ∀ K : Mag,
-    (inverseImplicitCompiles (.int t) K = true ↔
-      (K.isInteger = true ∧ (K.num : Int) ≤ t.hi ∧ (1000000 : Int) ≤ (K.num : Int)))
-
-/-- The full statement is false on the code (finding F11): with `int8_t` the threshold wraps to 64,
-so `inverse_in(centi(seconds), hertz(int8_t{…}))`, `K = 100`, compiles. -/
-theorem C15_inverse_gate_counterexample : ¬ C15_inverse_gate_full := by
-  intro h
-  have h1 := (h IntTy.i8 (by decide) [(.prime 2, 2), (.prime 5, 2)]).1 (by decide)
-  revert h1
-  decide
-
-/-- **C15, gate — partial**: for every integral rep that can hold the threshold (32- and 64-bit
-reps) the full statement holds. -/
-theorem C15_inverse_gate_partial (t : IntTy) (ht : t ∈ IntTy.all) (hbig : (1000000 : Int) ≤ t.hi)
-    (K : Mag) :
+/-- **C15, gate (full statement, after the fix of finding F16).**  For every integral rep, an
+implicit-rep inversion compiles exactly when the constant is an integer that fits the rep and is
+at least 10^6.  (`constexpr R threshold{1'000'000};` is a narrowing error for 8- and 16-bit reps,
+for which the right-hand side is unsatisfiable as well.) -/
+theorem C15_inverse_gate (t : IntTy) (ht : t ∈ IntTy.all) (K : Mag) :
     inverseImplicitCompiles (.int t) K = true ↔
       (K.isInteger = true ∧ (K.num : Int) ≤ t.hi ∧ (1000000 : Int) ≤ (K.num : Int)) := by
-  rw [C15_inverse_gate_asis t ht K]
-  have hw : t.wrap 1000000 = 1000000 := by
-    apply wrap_of_inRange t ht
-    have := lo_nonpos t ht
-    exact ⟨by omega, hbig⟩
-  rw [hw]
+  unfold inverseImplicitCompiles thresholdOf
+  by_cases hbig : (1000000 : Int) ≤ t.hi
+  · have hr : t.inRange ((inverseThresholdLiteral : Nat) : Int) := (threshold_inRange t ht).2 hbig
+    simp only [hr, if_true]
+    by_cases hK : K.isInteger = true
+    · by_cases hfit : (K.num : Int) ≤ t.hi
+      · rw [unityIn_int t ht K hK hfit]
+        simp only [inverseThresholdLiteral, valGe, ArithTy.isFloat, Bool.or_false, decide_eq_true_eq, ge_iff_le]
+        constructor
+        · intro h; exact ⟨hK, hfit, by simpa using h⟩
+        · intro h; simpa using h.2.2
+      · have hg : (getValueI t K).isSome = false := by
+          unfold getValueI; rw [if_pos hK, gvInt_of_gt t _ hfit]; rfl
+        simp only [unityIn, hg]
+        simp [hfit]
+    · have hg : (getValueI t K).isSome = false := by
+        unfold getValueI; rw [if_neg hK]; rfl
+      simp only [unityIn, hg]
+      simp [hK]
+  · have hr : ¬ t.inRange ((inverseThresholdLiteral : Nat) : Int) := fun h => hbig ((threshold_inRange t ht).1 h)
+    simp only [hr, if_false]
+    constructor
+    · intro h; cases h
+    · intro h; omega
 
 example : inverseImplicitCompiles (.int .i32) [(.prime 2, 6), (.prime 5, 6)] = true ∧
     inverseImplicitCompiles (.int .i32) [(.prime 2, 5), (.prime 5, 5)] = false ∧
@@ -104,16 +92,24 @@ example : inverseImplicitCompiles (.int .i32) [(.prime 2, 6), (.prime 5, 6)] = t
     inverseImplicitCompiles (.int .i64) [(.prime 2, 10), (.prime 5, 10)] = true ∧
     inverseImplicitCompiles (.int .i64) [(.prime 2, -3), (.prime 5, -3)] = false := by decide
 
+/-- Regression guard for finding F16 (formerly pending as F11): with `int8_t` / `int16_t` the
+inversions that used to slip through the wrapped threshold (64 / 16960) no longer compile. -/
+theorem C15_F16_fixed :
+    inverseImplicitCompiles (.int .i8) [(.prime 2, 2), (.prime 5, 2)] = false ∧
+    inverseImplicitCompiles (.int .u8) [(.prime 2, 6)] = false ∧
+    inverseImplicitCompiles (.int .i16) [(.prime 2, 5), (.prime 5, 4)] = false ∧
+    inverseImplicitCompiles (.int .u16) [(.prime 2, 4), (.prime 5, 4)] = false := by decide
+
 /-! ### Round trip on the model -/
 
-/-- **C15, round trip on the model.**  For every integral rep that can hold the threshold, every
-constant for which the implicit-rep inversion compiles and every `1 ≤ n ≤ 1000`:
+/-- **C15, round trip on the model (full statement).**  For every integral rep, every constant for
+which the implicit-rep inversion compiles and every `1 ≤ n ≤ 1000`:
 `inverse_in(a, inverse_as(b, a(n))) = n`, both steps free of undefined behaviour. -/
-theorem C15_inverse_roundtrip_model (t : IntTy) (ht : t ∈ IntTy.all) (hbig : (1000000 : Int) ≤ t.hi)
+theorem C15_inverse_roundtrip_model (t : IntTy) (ht : t ∈ IntTy.all)
     (K : Mag) (hc : inverseImplicitCompiles (.int t) K = true) (n : Nat) (h1 : 1 ≤ n) (h2 : n ≤ 1000) :
     ∃ m : Nat, inverseInImplicit (.int t) K (.i n) = .ok (.i m) ∧
       inverseInImplicit (.int t) K (.i m) = .ok (.i n) := by
-  obtain ⟨hK, hfit, hthr⟩ := (C15_inverse_gate_partial t ht hbig K).1 hc
+  obtain ⟨hK, hfit, hthr⟩ := (C15_inverse_gate t ht K).1 hc
   have hN : 1000000 ≤ K.num := by omega
   have hpos : 0 < K.num := by omega
   refine ⟨K.num / n, ?_, ?_⟩
@@ -136,27 +132,6 @@ theorem C15_inverse_roundtrip_model (t : IntTy) (ht : t ∈ IntTy.all) (hbig : (
 example : inverseImplicitCompiles (.int .i32) [(.prime 2, 6), (.prime 5, 6)] = true ∧
     inverseInImplicit (.int .i32) [(.prime 2, 6), (.prime 5, 6)] (.i 999) = .ok (.i 1001) ∧
     inverseInImplicit (.int .i32) [(.prime 2, 6), (.prime 5, 6)] (.i 1001) = .ok (.i 999) := by decide
-
-/-- The round trip of the source comment, stated for every integral rep. -/
-def C15_inverse_roundtrip_full : Prop :=
-  ∀ t ∈ IntTy.all, ∀ K : Mag, inverseImplicitCompiles (.int t) K = true →
-    ∀ n : Nat, 1 ≤ n → n ≤ 1000 → t.inRange (n : Int) →
-      ∃ m : Nat, inverseInImplicit (.int t) K (.i n) = .ok (.i m) ∧
-        inverseInImplicit (.int t) K (.i m) = .ok (.i n)
-
-/-- False on the code (finding F11): `int8_t`, `K = 100` (Hz ↔ cs), `n = 13`: 100/13 = 7 and
-100/7 = 14. -/
-theorem C15_inverse_roundtrip_counterexample : ¬ C15_inverse_roundtrip_full := by
-  intro h
-  obtain ⟨m, hm1, hm2⟩ := h IntTy.i8 (by decide) [(.prime 2, 2), (.prime 5, 2)] (by decide) 13
-    (by decide) (by decide) (by decide)
-  have e1 : inverseInImplicit (.int IntTy.i8) [(.prime 2, 2), (.prime 5, 2)] (.i ((13 : Nat) : Int)) = .ok (.i 7) := by decide
-  rw [e1] at hm1
-  have : (m : Int) = 7 := by
-    injection hm1 with h'; injection h' with h''; exact h''.symm
-  rw [this] at hm2
-  revert hm2
-  decide
 
 /-! ### Rounding functions -/
 
